@@ -3,8 +3,9 @@
 Decided: (EXH) CanonicalFormatter overrides every value-writing hook of
 serde_json::ser::Formatter (a non-overridden hook would write to the raw writer and
 bypass key buffering/ordering); floats have no Ok path; number strings are accepted
-only without '.', 'e', 'E'; (TYPE) object members are buffered in a byte-ordered
-BTreeMap<Vec<u8>, Vec<u8>> and emitted by iterating it; (REQ) string fragments are
+only without '.', 'e', 'E'; (MECH) object members are emitted in key-byte order, each key once: buffered in a
+BTreeMap keyed by the key bytes (a vector that is sorted but not de-duplicated is
+reported) and emitted by iterating it; (REQ) string fragments are
 NFC-normalised; every other hook delegates to CompactFormatter (no insignificant
 whitespace) through the context-dependent writer; who uses the formatter.
 Not decided: decode∘encode idempotence."""
